@@ -470,6 +470,71 @@ def build_request(spec):
     return rq
 
 
+XSI = 'xmlns:xsi="http://www.w3.org/2001/XMLSchema-instance"'
+
+
+def _dct_xml(s):
+    kind = {"std": "STANDARD-LENGTH-TYPE", "minmax": "MIN-MAX-LENGTH-TYPE",
+            "leading": "LEADING-LENGTH-INFO-TYPE"}[s.get("dct", "std")]
+    attrs = f'{XSI} xsi:type="{kind}" BASE-DATA-TYPE="{s["dt"]}"'
+    if s.get("enc") is not None:
+        attrs += f' BASE-TYPE-ENCODING="{s["enc"]}"'
+    if s.get("hl") is not None:
+        attrs += f' IS-HIGHLOW-BYTE-ORDER="{"true" if s["hl"] else "false"}"'
+    if s.get("condensed") is not None:
+        attrs += f' IS-CONDENSED="{"true" if s["condensed"] else "false"}"'
+    if kind == "MIN-MAX-LENGTH-TYPE":
+        attrs += f' TERMINATION="{s["term"]}"'
+    body = ""
+    if kind != "MIN-MAX-LENGTH-TYPE":
+        body += f"<BIT-LENGTH>{s['bl']}</BIT-LENGTH>"
+    if s.get("mask") is not None:
+        hexmask = f"{s['mask']:X}"
+        body += f"<BIT-MASK>{hexmask if len(hexmask) % 2 == 0 else '0' + hexmask}</BIT-MASK>"
+    if kind == "MIN-MAX-LENGTH-TYPE":
+        body += f"<MIN-LENGTH>{s['min']}</MIN-LENGTH>"
+        if s.get("max") is not None:
+            body += f"<MAX-LENGTH>{s['max']}</MAX-LENGTH>"
+    return f"<DIAG-CODED-TYPE {attrs}>{body}</DIAG-CODED-TYPE>"
+
+
+def build_request_xml(spec):
+    """the same request, but every object is read from its ODX text by odxtools' own parser
+    (CODED-CONST and VALUE parameters, simple DOPs with any compu method)"""
+    from xml.etree import ElementTree
+    from odxtools.dataobjectproperty import DataObjectProperty as DOP
+    from odxtools.request import Request as RQ
+    dops, params = [], ""
+    for i, p in enumerate(spec["params"]):
+        pos = ""
+        if p.get("bytepos") is not None:
+            pos += f"<BYTE-POSITION>{p['bytepos']}</BYTE-POSITION>"
+        if p.get("bitpos") is not None:
+            pos += f"<BIT-POSITION>{p['bitpos']}</BIT-POSITION>"
+        if p["kind"] == "const":
+            params += (f'<PARAM {XSI} xsi:type="CODED-CONST"><SHORT-NAME>{p["name"]}</SHORT-NAME>{pos}'
+                       f'<CODED-VALUE>{p["value"]}</CODED-VALUE>{_dct_xml(p["type"])}</PARAM>')
+        elif p["kind"] == "value":
+            d = p["dop"]
+            ptype = d.get("ptype") or ("A_UNICODE2STRING" if d["dt"] in ("A_ASCIISTRING", "A_UTF8STRING")
+                                       else d["dt"])
+            dops.append(f'<DATA-OBJECT-PROP ID="xdop{i}"><SHORT-NAME>xdop{i}</SHORT-NAME>'
+                        f'{compu_method_xml(d.get("cm", {}))}{_dct_xml(d)}'
+                        f'<PHYSICAL-TYPE BASE-DATA-TYPE="{ptype}"/></DATA-OBJECT-PROP>')
+            params += (f'<PARAM {XSI} xsi:type="VALUE"><SHORT-NAME>{p["name"]}</SHORT-NAME>{pos}'
+                       f'<DOP-REF ID-REF="xdop{i}"/></PARAM>')
+        else:
+            raise ValueError(p["kind"])
+    b = Builder()
+    for x in dops:
+        b.objs.append(DOP.from_et(ElementTree.fromstring(x), FRAGS))
+    rq = RQ.from_et(ElementTree.fromstring(
+        f'<REQUEST ID="xrq"><SHORT-NAME>rq</SHORT-NAME><PARAMS>{params}</PARAMS></REQUEST>'), FRAGS)
+    b.objs.append(rq)
+    b.resolve()
+    return rq
+
+
 def build_response(spec):
     b = Builder()
     rs = b.response(spec)
